@@ -166,6 +166,7 @@ type c08History struct {
 	big       bool
 	names     []string
 	otherRefl bool
+	own       *zap.Logger // the probe's own logger (sequential property only): history may also be traffic on P's logger itself
 }
 
 func genC08History(t *rapid.T, maxOps int, discard *memSink, probeCfg ...*cfgSpec) *c08History {
@@ -184,7 +185,7 @@ func genC08History(t *rapid.T, maxOps int, discard *memSink, probeCfg ...*cfgSpe
 	), zap.AddCaller(), zap.AddStacktrace(zapcore.DebugLevel), zap.WithFatalHook(countHook{new(int64)}), zap.WithPanicHook(countHook{new(int64)}))
 	so := specOpts{faults: true, viaAny: true}
 	for i := 0; i < n; i++ {
-		kind := rapid.SampledFrom([]string{"log", "log", "bigopen", "gc", "poison", "deepstack", "errors", "clone", "terminal", "with", "sinkfail", "encfail", "panicmarshal", "reuse", "bigreflect"}).Draw(t, "historyOp")
+		kind := rapid.SampledFrom([]string{"log", "log", "bigopen", "gc", "poison", "deepstack", "errors", "clone", "terminal", "with", "sinkfail", "encfail", "panicmarshal", "reuse", "bigreflect", "ownlogger"}).Draw(t, "historyOp")
 		if kind == "reuse" && len(probeCfg) == 0 {
 			// histories that run on several goroutines (they get no probe configuration) must not misuse a
 			// CheckedEntry: after the first Write it is back in the pool and may already belong to another
@@ -302,6 +303,30 @@ func genC08History(t *rapid.T, maxOps int, discard *memSink, probeCfg ...*cfgSpe
 				}()
 			})
 			h.pools["json encoder"], h.pools["slice encoder"], h.pools["buffer"] = true, true, true
+		case "ownlogger":
+			// earlier entries of P's own logger, its children and its siblings: without call-site fields, with
+			// them, with a namespace left open - none of them may change what the logger's next entry looks like
+			shape := rapid.SampledFrom([]string{"nofields", "fields", "namespace", "child", "mixed"}).Draw(t, "ownShape")
+			h.ops = append(h.ops, func() {
+				lg := h.own
+				if lg == nil {
+					return
+				}
+				switch shape {
+				case "nofields":
+					lg.Info("own history")
+				case "fields":
+					lg.Info("own history", zap.Int("h", 1), zap.Reflect("r", map[string]int{"a": 1}))
+				case "namespace":
+					lg.Info("own history", zap.Namespace("open"), zap.Int("h", 1))
+				case "child":
+					lg.With(zap.Namespace("childns"), zap.Int("c", 1)).Info("own history")
+				default:
+					lg.Info("own history")
+					lg.Info("own history", zap.Int("h", 1))
+					lg.Sugar().Infow("own history", "k", "v")
+				}
+			})
 		case "reuse":
 			// a CheckedEntry written twice: zap detects and reports the misuse; later entries must not suffer
 			h.ops = append(h.ops, func() {
@@ -374,6 +399,7 @@ func propC08Sequential(t *rapid.T) {
 	p := newC08Probe(t)
 	discard := &memSink{}
 	h := genC08History(t, 14, discard, p.c.cs)
+	h.own = p.lg
 	// P is issued from ONE source line (the stack trace legitimately contains
 	// the caller's line), in a loop over the phases.
 	var base c08Obs
